@@ -446,6 +446,7 @@ BASE = "nostr_relay/storage/base.py"
 DB = "nostr_relay/storage/db.py"
 
 MUTANTS = [
+    M("c05-tags-value-string-50", "nostr_relay/storage/__init__.py", "            sa.Column(\"value\", sa.Text()),", "            sa.Column(\"value\", sa.Text(collation=\"NOCASE\")),", "C05.schema"),
 ] + [
     M("c05-" + m.id, m.rel, m.old, m.new, "C05.replace", m.where, False, m.count) for m in __import__("sa.props.c13", fromlist=["MUTANTS"]).MUTANTS if m.expect == "C13.replace"
 ] + [
